@@ -17,4 +17,14 @@ open BHS.Props.C04
 #print axioms C04_common_partial
 #print axioms C04_common_counterexample
 #print axioms C04_reads_pure
+#print axioms C04_anc_iff_chainTo_reachable
+#print axioms C04_byhash_reachable
+#print axioms C04_byheight_lc_reachable
+#print axioms C04_tip_longest_reachable
+#print axioms C04_tips_reachable
+#print axioms C04_tips_leaf_reachable
+#print axioms C04_ancestors_partial_reachable
+#print axioms C04_common_height0_reachable
+#print axioms C04_common_partial_reachable
+#print axioms C04_root_stored_reachable
 #print axioms BHS.Props.SqlShape.query_statements
